@@ -84,7 +84,9 @@ type Transport struct {
 	// LazyBody: the request body is handed to the peer as a stream and is consumed only
 	// as far as the peer reads it (what "Expect: 100-continue" gives a real client).
 	LazyBody bool
-	Name     string
+	// MaxExchanges bounds the number of requests per run (default 3000).
+	MaxExchanges int
+	Name         string
 	seq      int
 	// Cancel, when set, is used by the Cancel* faults to cancel the caller's context.
 	Cancel context.CancelFunc
@@ -282,6 +284,16 @@ func (t *Transport) sleep(d time.Duration) {
 // RoundTrip implements http.RoundTripper.
 func (t *Transport) RoundTrip(req *http.Request) (*http.Response, error) {
 	t.seq++
+	max := t.MaxExchanges
+	if max == 0 {
+		max = 3000
+	}
+	if t.seq > max && t.Env != nil {
+		// No simulated run legitimately needs this many requests on one transport: the
+		// caller is looping without progress (for instance a pager that is served the
+		// same page again and again).
+		t.Env.Failf("runaway-requests/"+req.Method, "more than %d requests on one transport in a single run; the latest is %s %s", max, req.Method, req.URL)
+	}
 	ex := &Exchange{Seq: t.seq, Method: req.Method, URL: req.URL.String(), Host: req.URL.Host, Header: req.Header.Clone()}
 	if t.Record {
 		t.Log = append(t.Log, ex)
